@@ -69,6 +69,9 @@ Go(x, l) == pc' = [pc EXCEPT ![x] = l]
 (* whose helper exports: its ctx is the caller's, so it carries a deadline if *)
 (* the caller's does, or if ExportTimeout > 0.                                *)
 HasDeadline(who) == ExportTimeout \/ who \in Expiring
+(* the ctx of some Shutdown call is done and the exporter has not been shut down yet: the drain that   *)
+(* call started (or waited for) may still be running although the call has returned (D5)               *)
+DrainOutlives == Stoppers \cap expired # {} /\ ~mon.expShut
 ExportBegin(m, who) ==
   [m EXCEPT !.inflight = batch,
             !.handed = [id \in Ids |-> @[id] + Cardinality({i \in 1..Len(batch) : batch[i] = id})],
@@ -76,8 +79,9 @@ ExportBegin(m, who) ==
                       \cup (IF Len(batch) > MaxBatch THEN {"batch-too-large"} ELSE {})
                       \cup (IF ExportTimeout /\ ~HasDeadline(who) THEN {"export-without-deadline"} ELSE {})
                       \cup (IF m.expShut THEN {"export-after-shutdown"}
-                            ELSE IF m.sdRetErr THEN {"D5-drain-outlives-expired-shutdown"}
-                            ELSE IF m.shutRet THEN {"export-after-shutdown"} ELSE {})]
+                            ELSE IF ~(m.shutRet \/ m.sdRetErr) THEN {}
+                            ELSE IF DrainOutlives THEN {"D5-drain-outlives-expired-shutdown"}
+                            ELSE {"export-after-shutdown"})]
 (* the answers an export by `who` may get now: "timeout" = the exporter waits for ctx.Done() *)
 Answers(who) == {o \in Outcomes : o = "timeout" => (ExportTimeout \/ who \in expired)}
 AfterExport(o) == IF o = "ok" \/ ResetOnFailure THEN <<>> ELSE batch
@@ -223,7 +227,7 @@ SRet(s) == /\ pc[s] = "ret" /\ Go(s, "done")
            /\ mon' = IF err[s] # "" THEN [mon EXCEPT !.sdRetErr = TRUE]
                      ELSE [mon EXCEPT !.shutRet = TRUE,
                                  !.bad = @ \cup (IF Missing(mon.snapS[s]) = {} THEN {}
-                                                 ELSE IF mon.sdRetErr /\ ~mon.expShut
+                                                 ELSE IF DrainOutlives
                                                       THEN {"D5-drain-outlives-expired-shutdown"}
                                                  ELSE IF Missing(mon.snapS[s]) \subseteq mon.raced
                                                       THEN {"D4-enqueue-after-drain"} ELSE {"shutdown-missed"})]
